@@ -314,6 +314,13 @@ def c06(rec):
                                 f"came to rest, yet futures {o.get('value')} are unresolved and "
                                 f"workers {o.get('alive_workers')} alive: the forced shutdown waits "
                                 f"for something else to happen"))
+    for o in rec.ops:
+        if o["op"][0] == "shutdown" and o["returned"] and o["exc"] is None and o["op"][1] and o["op"][2] \
+                and o.get("alive_workers_at_return"):
+            out.append(dict(signature=f"C06:worker-alive-when-forced-shutdown-returned|cause={c}",
+                            msg=f"shutdown(wait=True, kill_workers=True) returned while workers "
+                                f"{o['alive_workers_at_return']} were still running (a worker on "
+                                f"its way out is a worker too)"))
     desc = [d["label"] for d in getattr(rec, "descendants", []) if d["alive"]]
     if rec.exit_done and desc:
         out.append(dict(signature=f"C06:descendants-left-alive|cause={c}",
